@@ -17,9 +17,17 @@ def result_type(self_name, scalar, k):
     return '%s%d' % (FAMILY[scalar], k)
 
 def spec(cfg, structs, f):
-    tr = f['trait']
-    if not tr or not tr[0].endswith('Swizzles') or f['by_ref']: return None
-    name = f['name']; sname = tname(f['self'])
+    tr = f['trait']; name = f['name']; sname = tname(f['self'])
+    if f['by_ref']: return None
+    if not tr and f['has_self'] and re.fullmatch('with_[xyzw]', name) and len(f['params']) == 1 and sname and re.fullmatch(r'(D|I|U|I8|U8|I16|U16|I64|U64|USize)?Vec[234]A?', sname) and f['params'][0][1] in ('f32', 'f64') + tuple(core.INTS):
+        # the single-lane setters with_x .. with_w are inherent methods, not part of the Swizzles traits; same statement: that lane := v, every other lane unchanged
+        if f['fid'] is None or f.get('status') == 'missing-callee': return 'untranslated'
+        vs = []; st = sym(structs, f['self'], 'a', vs); sl = tree_leaves(st)
+        try: li = LET.index(name[5]); ptree = sym(structs, f['params'][0][1], 'b', vs); new = [l[2] for l in sl]; new[li] = ptree[2]
+        except (IndexError, ValueError) as e: raise SymErr(str(e))
+        hid = has_hidden(st); run = 'run O tbl 40 %d%%positive [%s; %s]' % (f['fid'], tree_coq(st), tree_coq(ptree))
+        return {'vars': vs, 'lhs': 'rerase O (%s) (%s)' % (tree_shape(st), run) if hid else run, 'rhs': 'Ok (%s)' % tree_fill(st, iter(new)), 'spec': 'setter %s' % name}
+    if not tr or not tr[0].endswith('Swizzles'): return None
     getter = re.fullmatch('[xyzw]{2,4}', name) and not f['params']; setter = re.fullmatch('with_[xyzw]{2,4}', name) and len(f['params']) == 1
     if not (getter or setter): return None
     if f['fid'] is None or f.get('status') == 'missing-callee': return 'untranslated'
